@@ -6,6 +6,14 @@ props = [json.loads(l) for l in open(os.path.join(V, 'properties.jsonl'))]
 
 # id -> (level, engine, technique, level text, level note, design_ref)
 CHECKS = {
+ 'C13': ('fault_enumeration', 'E1-sched', 'deviation-bounded stateless DFS over crash points, transient-fault placements and uploader clock ticks on every store call of the real purge index build / resume / delete-unused, in a synctest bubble, end-to-end download oracle',
+         'Every store call of the index build is a fault point (reads: transient; writes: transient before / after / after-reading-the-body, crash before / after) and a 5-minute tick may fire the chunk uploader at any step; a crashed build is resumed; 4 kinds of upload between index and delete; every store call of delete-unused is a transient-fault point; all placements with <=1 (thorough 2) deviations are executed and, when the commands report success, every bundle is downloaded and compared.',
+         'Two fixed histories (with and without content re-uploaded after its bundle was deleted), chunk size 2, list/scan parallelism 1 (canonical intra-process order); local pebble KV is real.',
+         'DESIGN.md §3 C13'),
+ 'C14': ('model_checking', 'E2-seq + E1-sched', 'exhaustive histories (depth<=3) x every index chunk size through the real index build and delete-unused with a set model; stateless DFS over all interleavings of PurgeLock contenders',
+         'All histories of <=3 (quick 2) steps over uploads of overlapping contents to 2 repos + an extra context sharing the blob store, bundle deletion and squash, x every chunk size from 1 to #keys+1: index content = exactly the referenced roots and leaves, each once, one header time; blob store after delete-unused = referenced + newer than index. All interleavings of 2..3 lock contenders with force / unlock.',
+         'No faults (C13 covers them); contents of 1-2 leaves.',
+         'DESIGN.md §3 C14'),
  'C10': ('model_checking', 'E2-seq', 'exhaustive product of repository histories (bundles x labels x interrupted-upload placement) x squash options through the real RepoSquash in a fake-clock bubble, specification oracle',
          'Every history of 0..4 (quick 3) committed bundles x every assignment of {none, tag, semver tag, both} per bundle x an interrupted upload with 1 or 2 index files at every position x retain-N 1..3 (quick 2) x each retain-tags option: kept set, removed metadata, labels and full downloads of kept bundles are compared with the specification.',
          'Interrupted uploads are injected as the exact keys a crashed upload leaves (crash points themselves are enumerated by C06); 40-bundle shapes are not run.',
